@@ -1,7 +1,7 @@
 use proc_macro2::TokenStream;
 use quote::quote;
 use std::collections::HashSet;
-use syn::{punctuated::Punctuated, Error, Type};
+use syn::{ext::IdentExt, punctuated::Punctuated, Error, Type};
 
 use super::{
     types::{ArgInfo, MethodAttrs},
@@ -16,7 +16,7 @@ pub(super) fn generate_method_impl(
     crate_path: &TokenStream,
 ) -> Result<TokenStream, Error> {
     let method_name = &method.sig.ident;
-    let method_name_str = method_name.to_string();
+    let method_name_str = method_name.unraw().to_string();
 
     let converted_name = snake_case_to_pascal_case(&method_name_str);
     let actual_method_name = method_attrs.rename.as_deref().unwrap_or(&converted_name);
